@@ -187,6 +187,9 @@ fn check_ord<T: Cust>(a: i128, b: i128, rep: &mut Report) {
     rep.eval(1);
 }
 
+thread_local! {
+    static TARGETED: std::cell::Cell<u64> = const { std::cell::Cell::new(0) };
+}
 static DICT: std::sync::OnceLock<vmon::dict::Dict> = std::sync::OnceLock::new();
 
 /// structured in-range operand set
@@ -274,6 +277,68 @@ fn run_type<T: Cust>(cli: &Cli, rep: &mut Report) {
         });
         for r in reps {
             rep.merge(r);
+        }
+        // Result-targeted operands (boundary analysis on the OUTPUT): the second operand is
+        // solved for so that the exact result is congruent, modulo 2^BITS, to a chosen boundary
+        // residue (MAX, MIN, MAX-1, MIN+1, 0, -1, 1, equilibrium +-1) while the first operand is
+        // random over all magnitudes: for `*`, b = t * a^-1 (mod 2^BITS) for odd a - the exact
+        // product is then that residue any number of periods away; for `+`/`-`, b = t -+ a.
+        {
+            let n_targeted = cli.t(40_000u64, 4_000_000u64);
+            let reps = vmon::par_for(threads, 32, 1, |_| Report::new("C15", "w"), |rep, shard| {
+                let mut rng = Rng::derive(seed, &[151, T::BITS as u64, T::SIGNED as u64, shard]);
+                let m: i128 = 1i128 << T::BITS;
+                let eq = if T::SIGNED { 0 } else { m / 2 };
+                let targets = [T::hi(), T::lo(), T::hi() - 1, T::lo() + 1, 0, -1, 1, eq, eq - 1, eq + 1, T::hi() / 2, T::hi() - 2];
+                let into_range = |x: i128| -> i128 {
+                    let mut r = x.rem_euclid(m);
+                    if r > T::hi() {
+                        r -= m;
+                    }
+                    r
+                };
+                for _ in 0..n_targeted / 32 {
+                    // a: random magnitude class (bit length), random sign where the type has one
+                    let bits = 1 + rng.usize_below(T::BITS as usize - 1) as u32;
+                    let mut a = (rng.range_i128(0, (1i128 << bits) - 1) | (1i128 << (bits - 1))) | 1;
+                    if T::SIGNED && rng.bool() {
+                        a = -a;
+                    }
+                    if !T::in_range(a) {
+                        continue;
+                    }
+                    let t = targets[rng.usize_below(targets.len())];
+                    // inverse of the odd a modulo 2^BITS (Newton iteration, doubling the precision)
+                    let am = a.rem_euclid(m) as u128;
+                    let mask = (m as u128) - 1;
+                    let mut inv: u128 = am;
+                    for _ in 0..7 {
+                        inv = inv.wrapping_mul(2u128.wrapping_sub(am.wrapping_mul(inv))) & mask;
+                    }
+                    let b_mul = into_range(((t.rem_euclid(m) as u128).wrapping_mul(inv) & mask) as i128);
+                    if T::in_range(b_mul) {
+                        check_binop::<T>(Op::Mul, a, b_mul, rep);
+                        check_binop::<T>(Op::Mul, b_mul, a, rep);
+                        TARGETED.with(|c| c.set(c.get() + 1));
+                    }
+                    let b_add = into_range(t - a);
+                    if T::in_range(b_add) {
+                        check_binop::<T>(Op::Add, a, b_add, rep);
+                    }
+                    let b_sub = into_range(a - t);
+                    if T::in_range(b_sub) {
+                        check_binop::<T>(Op::Sub, a, b_sub, rep);
+                    }
+                    rep.nontrivial(vmon::hash_combine(vmon::hash_str(T::NAME), vmon::hash_combine(a as u64, (t as u64).rotate_left(29))));
+                }
+                let n = TARGETED.with(|c| c.replace(0));
+                if n > 0 {
+                    rep.hit_n("products_congruent_to_a_range_boundary", n);
+                }
+            });
+            for r in reps {
+                rep.merge(r);
+            }
         }
         let n_rand = cli.t(300_000u64, 100_000_000u64);
         let reps = vmon::par_for(threads, 64, 1, |_| Report::new("C15", "w"), |rep, shard| {
@@ -444,6 +509,7 @@ fn main() {
     }
 
     rep.oblige("types_exercised", 8);
+    rep.oblige("products_congruent_to_a_range_boundary", 1);
     rep.oblige("neg_types_exercised", 3);
     rep.oblige("negation_of_MIN_observed", 3);
     rep.oblige("widening_from_impls", 35);
